@@ -374,7 +374,9 @@ class RuntimeContext:
         if route is not None:
             # index 0 / key '' are routes too (only a context without route opens a new nesting level)
             self.routes.append(route)
-        else:
+        elif context is not None or cls is not None:
+            # (the root context of a bare type_transform() / a function call belongs to no data class: it is not a level of its own,
+            # the depth of a value is the same whichever entry point it comes through)
             self.depth += 1
 
         self.errors = []
